@@ -341,6 +341,10 @@ def run(ctx):
                                    "result": ev["res"]}, "frame / memo", clause)
     ctx.sample({"flow": "C", "history": [[x["fn"], x["param"], x["verbose"], x["res"][:10]] for x in logs[0]], "verdict": got[1]["verdict"]})
     ctx.notes["fresh_interpreter_calls"] = len(fresh)
+    # growth: the progress monitor itself (spec/Monitor.tla) - design checked exhaustively, behaviours replayed under a virtual clock
+    from vlib import monitorflow
+    ctx.tlc("Monitor", "MC_Monitor_mc.cfg", workers=16, timeout=600)
+    monitorflow.run(ctx, 300 if ctx.quick else 3000)
     ctx.notes["functions_exercised"] = sorted(set(ev["fn"] for log in logs for ev in log))
     ctx.assumptions += ["results and arguments are compared through canonical digests (dtype, shape, values; dict order; filter attributes)",
                         "the two randomised calls are seeded identically in the shared and the fresh run",
